@@ -109,7 +109,12 @@ CHECKS["C13"] = {
   "note": "exact reals; estimator is the user-supplied least-squares estimator (the default Ridge2FoldCV inside the measures is outside); training block on the factor family; one repaired defect (GRD with X wider than Y)",
   "technique": TECH,
 }
+CHECKS["C19"] = {
+  "text": "DirectionalConvexHull.fit/score_samples/score_feature_matrix/_directional_convex_hull_distance and _linear_interpolator are executed on symbolic samples in general position for one hull dimension, with scipy's ConvexHull replaced by its definition (facets = pairs with every other point strictly on one side, outward unit normals; orientation signs forked): a sample is selected iff it lies strictly below every bracketing chord of other samples, no training sample is below the hull, selected samples have zero distance and zero high-dimensional residual, unselected ones positive distance, the selection is unchanged by a symbolic positive affine map of y (distances scale) and by adding a sample above the hull, and for a symbolic query inside the footprint the distance equals the vertical offset on or above the surface and is negative below.",
+  "design_ref": "DESIGN.md 2/C19",
+  "note": "exact reals; planar hull only (2 and 3 hull dimensions need 3-D/4-D qhull and Delaunay interpolation: outside); general position assumed; hull stub validated against qhull on every replay; one repaired defect (zero distance for a point below the hull on an extended facet)",
+  "technique": TECH,
+}
 NOT_APPLICABLE = {
  "C17": "solver-based checking cannot decide the core of this property: score_samples is a log-sum-exp of Gaussians and the bandwidths come from data-dependent while-loops over exp / effective dimension (eigenvalues + log) / non-integer powers; z3 and cvc5 have no transcendental reasoning and uninterpreted exp/log leave the mixture formula, positive definiteness after shrinkage and translation invariance of the log-density undecided. The decidable fragment (nearest-grid assignment, weight sums, free-space covariance algebra) was not built in the time available, so nothing is claimed.",
- "C19": "the property is about scipy.spatial.ConvexHull (qhull) output; encoding it needs a stub of the convex hull by its definition (facets = d-subsets with all points on one side, general position assumed) plus interp1d / LinearNDInterpolator stubs; this stub was designed (DESIGN.md history) but not built and validated against qhull in the time available, so the property is not claimed rather than checked with another technique.",
 }
